@@ -56,6 +56,10 @@ func (s *Service) handleHead(event *apiv1.Event) {
 }
 
 func (s *Service) updateExecutionHeadFromBlock(block *spec.VersionedSignedBeaconBlock) {
+	if block == nil {
+		return
+	}
+
 	switch block.Version {
 	case spec.DataVersionPhase0, spec.DataVersionAltair:
 		// No execution information available, nothing to do.
@@ -70,6 +74,10 @@ func (s *Service) updateExecutionHeadFromBlock(block *spec.VersionedSignedBeacon
 		}
 	case spec.DataVersionCapella:
 		// Execution information available.
+		if block.Capella == nil || block.Capella.Message == nil || block.Capella.Message.Body == nil {
+			s.log.Debug().Msg("Capella block without body; not updating execution chain head")
+			return
+		}
 		executionPayload := block.Capella.Message.Body.ExecutionPayload
 		if executionPayload != nil && !bytes.Equal(executionPayload.StateRoot[:], []byte{0x00, 0x00, 0x00, 0x00, 0x00, 0x00, 0x00, 0x00, 0x00, 0x00, 0x00, 0x00, 0x00, 0x00, 0x00, 0x00, 0x00, 0x00, 0x00, 0x00, 0x00, 0x00, 0x00, 0x00, 0x00, 0x00, 0x00, 0x00, 0x00, 0x00, 0x00, 0x00}) {
 			s.log.Trace().Uint64("height", executionPayload.BlockNumber).Stringer("hash", executionPayload.BlockHash).Msg("Updating execution chain head")
@@ -77,6 +85,10 @@ func (s *Service) updateExecutionHeadFromBlock(block *spec.VersionedSignedBeacon
 		}
 	case spec.DataVersionDeneb:
 		// Execution information available.
+		if block.Deneb == nil || block.Deneb.Message == nil || block.Deneb.Message.Body == nil {
+			s.log.Debug().Msg("Deneb block without body; not updating execution chain head")
+			return
+		}
 		executionPayload := block.Deneb.Message.Body.ExecutionPayload
 		if executionPayload != nil && !executionPayload.StateRoot.IsZero() {
 			s.log.Trace().Uint64("height", executionPayload.BlockNumber).Stringer("hash", executionPayload.BlockHash).Msg("Updating execution chain head")
